@@ -448,3 +448,141 @@ func maybeNil(v ssa.Value) bool {
 	}
 	return false
 }
+
+func isEOFTestOn(fn *ssa.Function, errVals map[ssa.Value]bool) []edge {
+	// edges on which the error is known NOT to be io.EOF: false edge of errors.Is(err, io.EOF) / err == io.EOF
+	var tests []ssa.Value
+	eachCall(fn, func(c ssa.CallInstruction) {
+		if f := calleeFunc(c); f != nil && f.FullName() == "errors.Is" && len(c.Common().Args) == 2 && isGlobalNamed(c.Common().Args[1], "io", "EOF") && errVals[c.Common().Args[0]] {
+			if v, ok := c.(*ssa.Call); ok {
+				tests = append(tests, v)
+			}
+		}
+	})
+	for _, b := range fn.Blocks {
+		for _, in := range b.Instrs {
+			if bo, ok := in.(*ssa.BinOp); ok && bo.Op == token.EQL {
+				if (errVals[bo.X] && isGlobalNamed(bo.Y, "io", "EOF")) || (errVals[bo.Y] && isGlobalNamed(bo.X, "io", "EOF")) {
+					tests = append(tests, bo)
+				}
+			}
+		}
+	}
+	return boolEdges(fn, forward(tests, fwdOpts{noBinOp: true}), false)
+}
+
+func init() {
+	register(&Rule{
+		ID: "C17-e", Template: "error discipline (truncation is not a clean end of input)",
+		Doc: "A truncated object is reported as an error, never as io.EOF: in pkg/objects every return that passes on the error of objline.ReadField unchanged lies behind the 'not io.EOF' edge of a test of that error (io.EOF there means 'input ended at a field boundary'), unless every production caller of the function converts io.EOF itself. History walkers (prune, ancestry, negotiation) read io.EOF as 'frontier exhausted', so a commit object cut at a field boundary would otherwise silently end the walk and prune would delete the healthy history behind it.",
+		Min: 3,
+		Run: func(p *Program, r *RuleResult) error {
+			rf, err := p.MustFuncs("pkg/encoding/objline.ReadField")
+			if err != nil {
+				return err
+			}
+			fns := p.FuncsInPkg("pkg/objects")
+			r.Analysed = len(fns)
+			for _, fn := range fns {
+				ei := errorResultIndex(fn.Signature)
+				if ei < 0 {
+					continue
+				}
+				for _, ci := range callsTo(fn, rf) {
+					call, ok := ci.(*ssa.Call)
+					if !ok {
+						continue
+					}
+					vals := errValuesOfCall(call)
+					key := callKey(fn, ci)
+					what := "ReadField's io.EOF (input ended at a field boundary) is not returned as this object's error"
+					notEOF := mkCut(isEOFTestOn(fn, vals))
+					bad := false
+					for _, ret := range returnsOf(fn) {
+						v := retVal(ret, ei)
+						if v == nil || !vals[v] {
+							continue
+						}
+						path, reach := rawErrorReaches(fn, call, ret, v, vals, notEOF)
+						if reach {
+							// exempt when every production caller converts EOF
+							root := fn
+							for root.Parent() != nil {
+								root = root.Parent()
+							}
+							if callersConvertEOF(p, root) {
+								continue
+							}
+							r.bad(key, p.Rel(ret.Pos()), what, fmtPath("the raw error (possibly io.EOF) of ReadField is returned", path))
+							bad = true
+							break
+						}
+					}
+					if !bad {
+						r.ok(key, p.Rel(ci.Pos()), what)
+					}
+				}
+			}
+			return nil
+		},
+	})
+}
+
+// callersConvertEOF: every production caller of fn tests fn's error against io.EOF.
+func callersConvertEOF(p *Program, fn *ssa.Function) bool {
+	n := p.CG.Nodes[fn]
+	if n == nil {
+		return false
+	}
+	found := false
+	for _, e := range n.In {
+		if e.Site == nil || !p.IsProd(e.Caller.Func) {
+			continue
+		}
+		call, ok := e.Site.(*ssa.Call)
+		if !ok {
+			return false
+		}
+		found = true
+		vals := errValuesOfCall(call)
+		if vals == nil || len(isEOFTestOn(e.Caller.Func, vals)) == 0 {
+			return false
+		}
+	}
+	return found
+}
+
+// rawErrorReaches: can the unchanged error of `call` be what `ret` returns, on a path
+// that has not excluded io.EOF? φ operands are examined edge by edge, so that
+// `if errors.Is(err, io.EOF) { err = other }` is recognised as a conversion.
+func rawErrorReaches(fn *ssa.Function, call *ssa.Call, ret *ssa.Return, v ssa.Value, vals map[ssa.Value]bool, notEOF cutSet) ([]int, bool) {
+	if ph, ok := v.(*ssa.Phi); ok {
+		for k, e := range ph.Edges {
+			if !vals[e] {
+				continue
+			}
+			pred := ph.Block().Preds[k]
+			// the edge pred → φ block must itself not be a not-EOF edge
+			cutEdge := false
+			for i, s := range pred.Succs {
+				if s == ph.Block() && notEOF[edge{pred, i}] {
+					cutEdge = true
+				}
+			}
+			if cutEdge || len(pred.Instrs) == 0 {
+				continue
+			}
+			if inner, isPhi := e.(*ssa.Phi); isPhi && inner != ph {
+				if path, reach := rawErrorReaches(fn, call, ret, inner, vals, notEOF); reach {
+					return path, true
+				}
+				continue
+			}
+			if path, reach := reachAfter(fn, call, pred.Instrs[len(pred.Instrs)-1], notEOF, nil); reach {
+				return path, true
+			}
+		}
+		return nil, false
+	}
+	return reachAfter(fn, call, ret, notEOF, nil)
+}
